@@ -263,7 +263,10 @@ pub fn render(d: &CifDoc, r: &mut Rng, plain: bool) -> String {
     if let Some(m) = &d.origx { matrix_items("_database_PDB_matrix.origx", "_database_PDB_matrix.origx_vector", m, r, plain, &mut singles); }
     // symmetry name before number keeps the "first one wins" rule out of the picture; everything else may move
     let sym_order: Vec<usize> = singles.iter().enumerate().filter(|(_, s)| s.starts_with("_symmetry")).map(|(i, _)| i).collect();
-    if !plain {
+    if !plain && r.chance(1, 2) {
+        // name and number state the same group, so their order is free as well
+        r.shuffle(&mut singles);
+    } else if !plain {
         let mut idx: Vec<usize> = (0..singles.len()).collect();
         r.shuffle(&mut idx);
         let mut sym_iter = sym_order.iter();
